@@ -167,6 +167,26 @@ def call(*names, recv_field=None, recv_ty=None, arg_ty=None, where=None):
     return Sel(f, d)
 
 
+def call_reaching(name, within=None):
+    """call sites whose resolved product callee is `name` or a function that transitively calls it (wrappers and renamed
+    variants of the same service match; the rule follows the service, not the spelling). within: optional ::-suffix the
+    callee's own path must contain (e.g. 'FeoxStore::')."""
+    def f(body):
+        out = []
+        prog = body.prog
+        for n in body.calls():
+            for t in prog.targets(n.ev):
+                if not t or t not in prog.bodies:
+                    continue
+                if within is not None and within not in t:
+                    continue
+                if path_matches(t, name) or prog.reaches_name(t, name):
+                    out.append(n.id)
+                    break
+        return out
+    return Sel(f, "call reaching " + name)
+
+
 ATOMIC_WRITES = ["Atomic*::store", "Atomic*::fetch_*", "Atomic*::swap", "Atomic*::compare_exchange*",
                  "Atomic::store", "Atomic::fetch_*", "Atomic::swap", "Atomic::compare_exchange*"]
 ATOMIC_LOADS = ["Atomic*::load", "Atomic::load"]
